@@ -2,6 +2,7 @@ import ConfModel.Driver.Common
 import ConfModel.Model.ServerTimeout
 import ConfModel.Model.ServerChecks
 import ConfModel.Spec.ServerChecks
+import ConfModel.Model.FeedbackLine
 namespace ConfModel.Driver.C12
 open Lean ConfModel.Driver ConfModel.ServerChecks ConfModel.ServerChecksSpec
 open ConfModel.ServerTimeout (Bytes Proto)
@@ -67,7 +68,38 @@ def variant (j : Json) : Variant :=
   | [s, i, b] => { stream := s != 0, explicitIdentity := i != 0, bareGrpc := b != 0 }
   | _ => { stream := false, explicitIdentity := false, bareGrpc := false }
 
+/-- one line of the server's stderr as written, what the real `runTestCasesForServer` made of it
+(`record` | `forward` | `skip` | `hang`) and the test case it recorded it for -/
+structure ErrLine where
+  raw : String
+  kind : String
+  to : String
+
+def errLines (j : Json) : List ErrLine :=
+  (arr j).map fun l => match strList l with | [r, k, t] => ⟨r, k, t⟩ | _ => ⟨"", "hang", ""⟩
+
+/-- the decoy test case the harness adds to every batch (c12Decoy) -/
+def decoy : String := "C12/another case of the batch"
+
+def batchOf (names : List String) : List (List Char) :=
+  ((asSet (names.filter (· != ""))) ++ [decoy]).map String.toList
+
+/-- the model of the runner's reader agrees with the real runner on this line -/
+def lineAgrees (batch : List (List Char)) (l : ErrLine) : Bool :=
+  match ServerRunner.lineAct batch (l.raw.toList ++ ['\n']) with
+  | .skip => l.kind == "skip"
+  | .record a _ => l.kind == "record" && l.to.toList == a
+  | .forward _ => l.kind == "forward"
+
+/-- "feedback naming the test case": every line the request made the server write is recorded by
+the runner for that test case - by the real runner, and by the property's own reading
+(`FeedbackLine.attributedTo`) of the bytes -/
+def linesNamed (batch : List (List Char)) (name : String) (ls : List ErrLine) : Bool :=
+  ls.all fun l => l.kind == "record" && l.to == name &&
+    FeedbackLine.attributedTo batch name.toList (l.raw.toList ++ ['\n'])
+
 structure Obs where
+  lines : List ErrLine := []
   called : Bool
   fb : List String
   named : Bool
@@ -79,7 +111,7 @@ structure Obs where
 def obsOf (j : Json) : Obs :=
   { called := bool (field j "called"), fb := strList (field j "fb"), named := bool (field j "named"),
     ms := optIntStr (field j "ms"), seen := pairs (field j "seen"), status := nat (field j "status"),
-    error := bool (field j "error") }
+    error := bool (field j "error"), lines := errLines (field j "lines") }
 
 def outcomeJson (o : Outcome) : Json :=
   Json.mkObj [("rejected", o.rejected), ("fb", toJson (o.feedback.map Fb.toString)),
@@ -103,10 +135,12 @@ def timeoutHeaderOf : Proto → String
 request without test name is rejected outright (and only such a request); a repeated test is
 flagged; request trailers are flagged; a timeout header is accepted exactly when grammatical,
 echoed as its millisecond floor and removed before the inner handler. -/
-def generalHolds (earlier : List String) (r : Req) (i : Obs) : Bool × String :=
+def generalHolds (batch : List (List Char)) (earlier : List String) (r : Req) (i : Obs) : Bool × String :=
   let name := testName r
   let fb := i.fb.map fbOfClass
   if !i.named then (false, "a message is not prefixed with the test case name") else
+  if !linesNamed batch name i.lines then
+    (false, s!"a line of the server's stderr is not attributed to test case {name.quote} by the runner: {(i.lines.map (·.raw))}") else
   if name == "" then
     (!i.called && i.fb.isEmpty && i.error, "a request without test name must be rejected outright")
   else if !i.called then (false, "request with a test name was not passed on") else
@@ -125,11 +159,11 @@ def generalHolds (earlier : List String) (r : Req) (i : Obs) : Bool × String :=
     else if !(values i.seen hdr).isEmpty then (false, "timeout header still visible to the server implementation")
     else (true, "")
 
-def serveHolds : List String → List Req → List Obs → Bool × String
+def serveHolds (batch : List (List Char)) : List String → List Req → List Obs → Bool × String
   | earlier, r :: rs, i :: is =>
-    let (ok, why) := generalHolds earlier r i
+    let (ok, why) := generalHolds batch earlier r i
     if !ok then (false, why) else
-    serveHolds (if i.called then testName r :: earlier else earlier) rs is
+    serveHolds batch (if i.called then testName r :: earlier else earlier) rs is
   | _, _, _ => (true, "")
 
 /-! ### the real server (op `real`, c12real.go) -/
@@ -143,11 +177,12 @@ structure RealObs where
   proto : Nat
   ok : Bool
   err : String
+  lines : List ErrLine
 
 def realObsOf (j : Json) : RealObs :=
   { fb := strList (field j "fb"), named := bool (field j "named"), ms := optIntStr (field j "ms"),
     seenTO := nat (field j "seenTO"), status := nat (field j "status"), proto := nat (field j "proto"),
-    ok := bool (field j "ok"), err := str (field j "err") }
+    ok := bool (field j "ok"), err := str (field j "err"), lines := errLines (field j "lines") }
 
 /-- feedback that is not about one of the six aspects and is judged by `generalHolds` -/
 def notAnAspect : Fb → Bool
@@ -159,8 +194,8 @@ def asciiString (b : List UInt8) : String := String.ofList (b.map fun x => Char.
 def timeoutHeaders (q : Req) : Nat :=
   (values q.headers "Connect-Timeout-Ms").length + (values q.headers "Grpc-Timeout").length
 
-def agreeReal (o : ChainOutcome) (i : RealObs) : Bool :=
-  i.err == "" && i.fb == o.outcome.feedback.map Fb.toString &&
+def agreeReal (batch : List (List Char)) (o : ChainOutcome) (i : RealObs) : Bool :=
+  i.err == "" && i.lines.all (lineAgrees batch) && i.fb == o.outcome.feedback.map Fb.toString &&
   i.ms == o.outcome.timeout.map ServerTimeout.timeoutMs &&
   (match o.inner with
    | some q => i.ok && i.seenTO == timeoutHeaders q
@@ -170,7 +205,7 @@ def agreeReal (o : ChainOutcome) (i : RealObs) : Bool :=
 the inner handler ran iff the RPC succeeded; the timeout headers the implementation saw are the
 ones it echoes in the request info -/
 def obsOfReal (i : RealObs) : Obs :=
-  { called := i.ok, fb := i.fb, named := i.named, ms := i.ms,
+  { called := i.ok, fb := i.fb, named := i.named, ms := i.ms, lines := i.lines,
     seen := if i.seenTO > 0 then [("Connect-Timeout-Ms", "?"), ("Grpc-Timeout", "?")] else [],
     status := i.status, error := !i.ok }
 
@@ -219,8 +254,9 @@ def handle : Handler := fun op inp impl =>
     let reqs := (arr (field inp "reqs")).map reqOf
     let obs := (arr impl).map obsOf
     let outs := serve [] reqs
-    let agree := outs.length == obs.length && (outs.zip obs).all (fun (o, i) => agreeObs o i)
-    let (holds, why) := serveHolds [] reqs obs
+    let batch := batchOf (reqs.map testName)
+    let agree := outs.length == obs.length && (outs.zip obs).all (fun (o, i) => agreeObs o i && i.lines.all (lineAgrees batch))
+    let (holds, why) := serveHolds batch [] reqs obs
     { agree := agree, holds := holds && obs.length == reqs.length,
       nontrivial := obs.any (fun i => !i.fb.isEmpty) || reqs.length > 1,
       model := toJson (outs.map outcomeJson), why := why }
@@ -234,7 +270,7 @@ def handle : Handler := fun op inp impl =>
       match (arr impl).map obsOf with
       | [i] =>
         let fb := i.fb.map fbOfClass
-        let (g, gwhy) := generalHolds [] r i
+        let (g, gwhy) := generalHolds (batchOf [name]) [] r i
         let exact := !a.realisable || flagsExactly e a fb
         { agree := agreeObs o i, holds := g && exact,
           nontrivial := a.realisable, model := outcomeJson o,
@@ -261,7 +297,8 @@ def handle : Handler := fun op inp impl =>
       let reqs := List.replicate times r
       let outs := serveChain path [] reqs
       let obs := (arr impl).map realObsOf
-      let agree := outs.length == obs.length && (outs.zip obs).all (fun (o, i) => agreeReal o i)
+      let batch := batchOf [name]
+      let agree := outs.length == obs.length && (outs.zip obs).all (fun (o, i) => agreeReal batch o i)
       let model := toJson (outs.map fun o => outcomeJson o.outcome)
       match obs.find? (fun i => i.err != "") with
       | some i => { agree := false, holds := false, model := model,
@@ -270,13 +307,13 @@ def handle : Handler := fun op inp impl =>
       if obs.length != times then { agree := false, holds := false, model := model, why := "observations missing" } else
       if obs.any (fun i => i.proto != a.version.num) then
         bad s!"real: the exchange did not use HTTP/{a.version.num}" else
-      let (g, gwhy) := serveHolds [] reqs (obs.map obsOfReal)
+      let (g, gwhy) := serveHolds batch [] reqs (obs.map obsOfReal)
       let exact := obs.all fun i => flagsExactly e a ((i.fb.map fbOfClass).filter (fun f => !notAnAspect f))
       let dev := mismatches e a
       { agree := agree, holds := g && exact, nontrivial := true, model := model,
         why := if !g then s!"{proc} over HTTP/{a.version.num}: " ++ gwhy else if !exact then
           s!"{proc} over HTTP/{a.version.num}: feedback {obs.map (·.fb)} does not name exactly the deviating aspects {reprStr dev}" else "",
-        cls := s!"{proc}/http{a.version.num}/" ++ (if name == "" then "no-name" else if !isNull timeout then "timeout"
+        cls := s!"{proc}/http{a.version.num}/" ++ (if name == "" then "no-name" else if !name.startsWith "Real/" then "odd-name" else if !isNull timeout then "timeout"
           else if times > 1 then "repeat" else if nat (field inp "trailers") > 0 then "trailers"
           else if dev.isEmpty then "match" else "deviating") }
     | _, _ => bad "real: bad tuples"
